@@ -267,7 +267,19 @@ func prop(t *rapid.T) {
 		bodyReader = iotest.DataErrReader(bodyReader)
 	}
 	ev.Class("body-reader:" + readerKind)
-	req := httptest.NewRequest(method, "/x?"+queryValues(pQuery).Encode(), bodyReader)
+	target := "/x?" + queryValues(pQuery).Encode()
+	// a request without any query string (and one whose form body is empty) binds the zero value - through the same
+	// steps as any other: with a validator on, the required field is missing
+	if rapid.IntRange(0, 7).Draw(t, "noQueryAtAll") == 0 {
+		pQuery, target = Payload{}, "/x"
+		ev.Class("request-without-a-query-string")
+		if bodyFormat == "form" && !garbage && !malformed {
+			pBody, body = Payload{}, nil
+			bodyReader = bytes.NewReader(nil)
+			ev.Class("empty-form-body")
+		}
+	}
+	req := httptest.NewRequest(method, target, bodyReader)
 	req.ContentLength = int64(len(body))
 	if ct != "" {
 		req.Header.Set("Content-Type", ct)
